@@ -73,6 +73,16 @@ int main(int argc, char **argv, char **envp)
             nents++;
         }
     }
+    /* a footprint on the open file DESCRIPTIONS behind 0/1/2 when they are regular files: 3 bytes read
+     * from stdin, 2 bytes written to stdout / stderr - whoever shares the description sees its offset move */
+    int foot[3] = {-1, -1, -1};
+    for (int fd = 0; fd < 3; fd++) {
+        struct stat st;
+        if (fstat(fd, &st) == 0 && S_ISREG(st.st_mode)) {
+            char b3[3];
+            foot[fd] = fd == 0 ? (int)read(0, b3, 3) : (int)write(fd, fd == 1 ? "o1" : "e2", 2);
+        }
+    }
     if (!getcwd(cwd, sizeof cwd))
         snprintf(cwd, sizeof cwd, "<getcwd errno %d>", errno);
 
@@ -163,6 +173,7 @@ int main(int argc, char **argv, char **envp)
     fprintf(f, "],\"pid\":%d,\"ppid\":%d,\"uid\":%d,\"euid\":%d,\"gid\":%d,\"egid\":%d,\"pgrp\":%d,\"sid\":%d",
             (int)getpid(), (int)getppid(), (int)getuid(), (int)geteuid(), (int)getgid(), (int)getegid(),
             (int)getpgrp(), (int)getsid(0));
+    fprintf(f, ",\"foot\":[%d,%d,%d]", foot[0], foot[1], foot[2]);
     if (got >= 0) {
         fprintf(f, ",\"stdin_read\":");
         jstr(f, inbuf);
